@@ -6,6 +6,8 @@ https://github.com/scottcorgan/tiny-emitter
 from collections import defaultdict, namedtuple
 
 
+# once: None for a permanent listener; for a once-listener a one-item list holding whether an emit
+# has claimed it (a mutable cell: the record itself stays in the list until it is called)
 Listener = namedtuple('Listener', ['fn', 'ctx', 'once'])
 
 
@@ -17,36 +19,49 @@ class Emitter(object):
     def on(self, name, callback, ctx=None):
         if ctx is None:
             ctx = {}
-        self._e[name].append(Listener(fn=callback, ctx=ctx, once=False))
+        self._e[name].append(Listener(fn=callback, ctx=ctx, once=None))
         return self
 
     def once(self, name, callback, ctx=None):
         if ctx is None:
             ctx = {}
-        self._e[name].append(Listener(fn=callback, ctx=ctx, once=True))
+        self._e[name].append(Listener(fn=callback, ctx=ctx, once=[False]))
         return self
 
-    def _claim(self, name, listener):
-        # take this very record (not an equal one) off the list; False if it is there no more
+    def _remove(self, name, listener):
+        # take this very record (not an equal one) off the list
         events = self._e[name]
         for i, event in enumerate(events):
             if event is listener:
                 del events[i]
-                if not events:
-                    del self._e[name]  # as off() leaves it
-                return True
-        return False
+                break
+        if not self._e[name]:
+            del self._e[name]  # as off() leaves it
 
     def emit(self, name, *args):
         listeners = self._e[name][:]
         # A once-listener belongs to the first emit that finds it, and is called with the arguments
-        # of that emit: it is taken off the list before anything is delivered.  (Consumed only when
-        # it is called, an emit of the same name from inside an earlier listener - or from another
-        # thread - called it with ITS arguments, and the first emit not at all.)
-        mine = [not listener.once or self._claim(name, listener) for listener in listeners]
-        for listener, deliver in zip(listeners, mine):
-            if deliver:
+        # of that emit: the emit claims it before anything is delivered.  (Consumed only when it is
+        # called, an emit of the same name from inside an earlier listener - or from another thread -
+        # called it with ITS arguments, and the first emit not at all.)
+        mine = []
+        for listener in listeners:
+            if listener.once is not None and not listener.once[0]:
+                listener.once[0] = True
+                mine.append(listener)
+        try:
+            for listener in listeners:
+                if listener.once is not None:
+                    if not any(listener is claimed for claimed in mine):
+                        continue  # it belongs to another emit
+                    mine = [claimed for claimed in mine if claimed is not listener]
+                    self._remove(name, listener)
                 listener.fn(*args, **listener.ctx)
+        finally:
+            # a listener failed before these were reached: they have not been called, so they stay
+            # subscribed - their claim is given up
+            for listener in mine:
+                listener.once[0] = False
         return self
 
     def off(self, name, callback=None):
